@@ -193,6 +193,24 @@ def judge_batches(ctx, batches):
 
 
 # ------------------------------------------------------------------------------------------
+def long_words(ctx):
+    """Words of 300 000 characters (absorbed into one ligature, kerned, plain) in a child process: the run must
+    return, and the originals must spell the word.  A process that dies (stack overflow) is a violation."""
+    out = ctx.work / "long.ndjson"
+    p = vh(["c05-long", "n=300000", f"out={out}"], check=False, timeout=600)
+    evs = read_ndjson(out) if out.exists() else []
+    done = {e["program"]: e for e in evs}
+    for name in ("absorbed", "kerned", "plain"):
+        e = done.get(name)
+        if e is None:
+            ctx.violation(f"running the compiled program '{name}' on a word of 300000 characters killed the process "
+                          f"(exit status {p.returncode}; a stack overflow cannot be caught)", {"part": "long", "program": name})
+            break
+        if e["originals"] != e["n"]:
+            ctx.violation(f"long word under '{name}': the originals spell {e['originals']} characters, the word has {e['n']}", e)
+    ctx.add_bound("LigKern.long_words", len(done), len(done), characters=300000)
+
+
 def run(ctx):
     q = ctx.quick
     build_harness()
@@ -283,6 +301,7 @@ def run(ctx):
             ctx.sample({"driver": b.name, "program": e["p"] if len(e["p"]["ins"]) < 12 else e.get("tag"),
                         "errs": e["errs"], "run": e["runs"][0] if e["runs"] else None})
     judge_batches(ctx, batches)
+    long_words(ctx)
     ctx.assumptions += [
         "words are non-empty and consist of characters that exist in the font (TeX drops characters a font lacks "
         "before the lig/kern loop; texcraft's run has no notion of existence)",
